@@ -170,6 +170,7 @@ type ContractFile struct {
 	Funcs     []*FuncContract
 	Uses      []string // //@ use NAME lines: stdlib spec files to include
 	PureMethods []string // //@ puremethod NAME ...: interface methods assumed to be pure observers
+	NonNil      []string // //@ nonnil NAME ...: package-level pointer variables assumed non-nil (initialised once in init)
 	Imports   []*ast.ImportSpec
 }
 
@@ -240,6 +241,11 @@ func ScanContractFile(path string, src []byte) (*ContractFile, error) {
 				return nil, err
 			}
 			cf.PureMethods = append(cf.PureMethods, strings.Fields(strings.ReplaceAll(body[len("puremethod"):], ",", " "))...)
+		case first == "nonnil":
+			if err := flush(); err != nil {
+				return nil, err
+			}
+			cf.NonNil = append(cf.NonNil, strings.Fields(strings.ReplaceAll(body[len("nonnil"):], ",", " "))...)
 		case first == "func" || first == "extern" || first == "lemma":
 			if err := flush(); err != nil {
 				return nil, err
